@@ -11,6 +11,7 @@ model state (`env k`, k = number of awaits performed so far): the theorems hold 
 import EdzedModel.ErrorReg
 import EdzedModel.Gen.TranslatedErrReg
 import EdzedModel.Gen.TranslatedLifecycle
+import EdzedModel.Gen.TranslatedInitSb
 import EdzedProofs.ErrorReg
 
 namespace Edzed.ErrorRegTie
@@ -292,7 +293,8 @@ def thrownAt (s : St) : St × Option Err :=
   if s.mustCancel then ({ s with mustCancel := false }, some (.cancelled 0))
   else match s.armed with
     | some (.calc id) => (s, some (.exc id))
-    | some (.calcHandler id) => (s.abort (.wrapped id), some (.exc id))
+    | some (.calcHandler id f) =>
+      if (Fault.inHandler f).fatal then (s.abort (.wrapped id), some (.exc id)) else (s, some (.exc id))
     | none => (s, none)
 
 @[reducible] def erfPrims (sc : RfScript) : TrL.RunForeverPrims TS PyExc Nat where
@@ -332,7 +334,9 @@ def thrownAt (s : St) : St × Option Err :=
     | some id => (s, .raise (.err (.exc id)))
     | none => (s, .next ())
   initAsync := fun s => ({ s with st := sc.envInit s.st }, .next ())
-  initSync2 := M.pure ()
+  -- `_init_sblocks_sync_2`: a block whose initialisation step failed early is not initialised again and is
+  -- found uninitialised at the end
+  initSync2 := fun s => if s.st.earlyFail then (s, .raise (.err .notInit)) else (s, .next ())
   initDoneSet := fun s => ({ s with initDone := some true }, .next ())
   simulate := fun s =>
     match (thrownAt (sc.envSim s.st)).2 with
@@ -376,6 +380,7 @@ def orElseSup (re : Option PyExc) (x : Option Nat) : Option PyExc :=
 @[simp] theorem isCancel_exc (i : Nat) : (Err.exc i).isCancel = false := rfl
 @[simp] theorem isCancel_wrapped (i : Nat) : (Err.wrapped i).isCancel = false := rfl
 @[simp] theorem isCancel_reported (i : Nat) : (Err.reported i).isCancel = false := rfl
+@[simp] theorem isCancel_notInit : Err.notInit.isCancel = false := rfl
 
 /-- the except clause of run_forever IS the model's `caught` -/
 theorem caught_eq (s : St) (e : Err) :
@@ -392,7 +397,7 @@ theorem wakeStep_sim_try_eq (s : St) (hp : s.phase = .tryBlock) :
   cases hm : s.mustCancel
   · cases ha : s.armed with
     | none => simp
-    | some a => cases a <;> simp
+    | some a => cases a <;> simp <;> split <;> simp_all
   · simp
 
 /-- the model's `start` of a fresh task, in the three cases -/
@@ -405,9 +410,14 @@ theorem start_init_error (s0 : St) (id : Nat) (hp : s0.phase = .notStarted) (he 
       (({ s0 with phase := .tryBlock, runWaiting := s0.runMode } : St).caught (.exc id)).leaveTry := by
   simp [step, hp, he]
 
-theorem start_ok (s0 : St) (hp : s0.phase = .notStarted) (he : s0.error = none) :
+theorem start_ok (s0 : St) (hp : s0.phase = .notStarted) (he : s0.error = none) (hf : s0.earlyFail = false) :
     (step s0 (.start none)).1 = { s0 with phase := .tryBlock, runWaiting := s0.runMode } := by
-  simp [step, hp, he]
+  simp [step, hp, he, hf]
+
+theorem start_early_fail (s0 : St) (hp : s0.phase = .notStarted) (he : s0.error = none) (hf : s0.earlyFail = true) :
+    (step s0 (.start none)).1 =
+      (({ s0 with phase := .tryBlock, runWaiting := s0.runMode } : St).caught .notInit).leaveTry := by
+  simp [step, hp, he, hf]
 
 /-- the model's `wakeStep … sim` at the `sleep(0)` after the try block -/
 theorem wake_sleep0 (s : St) (hp : s.phase = .sleep0) :
@@ -442,7 +452,7 @@ def outcomeOf (o : Option Err) : Out PyExc Unit Unit :=
 /-- under the tie's hypotheses on the environments the model's account of run_forever ends in phase `done` -/
 theorem rfModel_done (sc : RfScript) (s0 : St) (hp : s0.phase = .notStarted) (he : s0.error = none)
     (hs : ∀ s, (sc.envSim s).phase = s.phase)
-    (ht : sc.initErr = none → (thrownAt (sc.envSim (step s0 (.start none)).1)).2.isSome = true)
+    (ht : sc.initErr = none → s0.earlyFail = false → (thrownAt (sc.envSim (step s0 (.start none)).1)).2.isSome = true)
     (hy : ∀ s, (sc.envYield s).phase = s.phase) (hz : ∀ s, (sc.envStop s).phase = s.phase) :
     (rfModel sc s0).phase = .done := by
   unfold rfModel
@@ -452,14 +462,17 @@ theorem rfModel_done (sc : RfScript) (s0 : St) (hp : s0.phase = .notStarted) (he
     cases hie : sc.initErr with
     | some id => rw [start_init_error s0 id hp he]; simp
     | none =>
-      have ht' := ht hie
-      rw [start_ok s0 hp he] at ht' ⊢
-      have hph : (sc.envSim { s0 with phase := .tryBlock, runWaiting := s0.runMode }).phase = .tryBlock := by rw [hs]
-      simp only [show (({ s0 with phase := .tryBlock, runWaiting := s0.runMode } : St).phase == Phase.tryBlock) = true from rfl,
-        if_true, wakeStep_sim_try_eq _ hph]
-      cases hT : (thrownAt (sc.envSim { s0 with phase := .tryBlock, runWaiting := s0.runMode })).2 with
-      | none => rw [hT] at ht'; simp at ht'
-      | some e => simp
+      cases hf : s0.earlyFail with
+      | true => rw [start_early_fail s0 hp he hf]; simp
+      | false =>
+        have ht' := ht hie hf
+        rw [start_ok s0 hp he hf] at ht' ⊢
+        have hph : (sc.envSim { s0 with phase := .tryBlock, runWaiting := s0.runMode }).phase = .tryBlock := by rw [hs]
+        simp only [show (({ s0 with phase := .tryBlock, runWaiting := s0.runMode } : St).phase == Phase.tryBlock) = true from rfl,
+          if_true, wakeStep_sim_try_eq _ hph]
+        cases hT : (thrownAt (sc.envSim { s0 with phase := .tryBlock, runWaiting := s0.runMode })).2 with
+        | none => rw [hT] at ht'; simp at ht'
+        | some e => simp
   simp only []
   generalize (if ((step s0 (.start sc.initErr)).1.phase == Phase.tryBlock) = true
       then (wakeStep (sc.envSim (step s0 (.start sc.initErr)).1) .sim).1 else (step s0 (.start sc.initErr)).1) = S2 at h2 ⊢
@@ -470,5 +483,93 @@ theorem rfModel_done (sc : RfScript) (s0 : St) (hp : s0.phase = .notStarted) (he
   · simp [hsl] at h3
     have : (sc.envStop W).phase = .cleanup := by rw [hz]; exact h3
     simp [h3, finish_phase _ this]
+
+/-! ### `SBlock.event` and `init_sblock` (the programs of Gen/TranslatedDispatch.lean and Gen/TranslatedInitSb.lean,
+    primitives = what the error register sees of one block) -/
+
+/-- the exceptions of one event delivery -/
+inductive EvExc where
+  | raised (f : Family) (deep : Bool)   -- what the handler call ended with: family, traceback deeper than the call
+  | simErr            -- the EdzedCircuitError made by `SBlock.event` for abort() (`__cause__` = the handler's exception)
+  | recursion         -- EdzedCircuitError("Forbidden recursive event() call")
+  | initFailed        -- the exception raised by a synchronous initialisation routine
+  | other             -- ValueError / TypeError for a malformed event type
+  deriving DecidableEq, Repr
+
+/-- one SBlock as the error register sees it -/
+structure EvSt where
+  st : St := {}
+  dels : List Err := []        -- the errors handed to `Circuit.abort`
+  active : Bool := false       -- `_event_active`
+  marker : Int := 2            -- `init_steps_completed`
+  initCalls : Nat := 0         -- calls of `init_regular()`
+  initialized : Bool := true
+
+/-- the event type: one the block has a handler for, or not -/
+inductive EvType where
+  | known | unknown
+  deriving DecidableEq, Repr
+
+def faultEtype : Fault → EvType
+  | .unknownType => .unknown
+  | _ => .known
+
+/-- the primitives of `init_sblock` for a block without persistence and without `init_from_value` whose
+    `init_regular()` raises (`initFails`) or initialises the block -/
+@[reducible] def isPrims (initFails : Bool) : TrI.InitPrims EvSt EvExc Unit where
+  steps s _ := s.marker
+  setSteps _ k := fun s => ({ s with marker := k }, .next ())
+  hasPersistence _ := false
+  persistent _ _ := false
+  initFromPersistentData _ := M.pure ()
+  isInitialized s _ := s.initialized
+  initRegular _ := fun s =>
+    if initFails then ({ s with initCalls := s.initCalls + 1 }, .raise .initFailed)
+    else ({ s with initCalls := s.initCalls + 1, initialized := true }, .next ())
+  hasInitFromValue _ := false
+  initdefGiven _ := false
+  initFromValue _ := M.pure ()
+  excIs _ c := c == "Exception"
+  mkExc _ _ := .other
+  sblocks := [()]
+  pblocks := []
+  initSblock _ _ := M.pure ()
+  hasStorage _ := false
+  savePersistentState _ := M.pure ()
+  queueEmpty _ := true
+  queueGet := M.pure ()
+
+/-- the primitives of `SBlock.event` for one delivery that ends with the fault `flt` (exception id `id`);
+    `self.circuit.init_sblock(self, full=True)` is the TRANSLATED `init_sblock` -/
+@[reducible] def evPrims (flt : Fault) (id : Nat) (initFails : Bool) :
+    TrD.EventPrims EvSt EvExc EvType Unit Unit Unit Unit Bool where
+  isStr _ := true
+  etypeTruthy _ := true
+  isEventType _ := false
+  isCond _ := false
+  etrue _ := none
+  efalse _ := none
+  dataValue _ := ()
+  valTruthy _ := false
+  mkExc cls marker := if cls == "EdzedCircuitError" then (if marker == "recursion" then .recursion else .simErr) else .other
+  excIs e c :=
+    match e with
+    | .raised f _ => c == "Exception" || (c == "EdzedUnknownEvent" && f == .unknownEvent)
+    | _ => c == "Exception"
+  tbDeep e := match e with | .raised _ d => d | _ => true
+  getActive s := s.active
+  setActive b := fun s => ({ s with active := b }, .next ())
+  -- `abort(sim_err)`: the model's `St.abort` with the wrapped error
+  abort x := fun s =>
+    let e : Err := match x with | .simErr => .wrapped id | _ => .exc 0
+    ({ s with st := s.st.abort e, dels := s.dels ++ [e] }, .next ())
+  initSteps s := s.marker
+  enableEnter := fun s => ({ s with active := false }, .next s.active)     -- `_enable_event.__enter__`
+  enableExit saved := fun s => ({ s with active := saved }, .next ())
+  initSblockFull := TrI.init_sblock (isPrims initFails) () true
+  lookup t := match t with | .known => some () | .unknown => none
+  callHandler _ _ := M.raise (.raised flt.seen.1 flt.seen.2)
+  callDefault _ _ := M.raise (.raised .unknownEvent true)      -- the default `_event()`: EdzedUnknownEvent
+  noneVal := ()
 
 end Edzed.ErrorRegTie
